@@ -545,20 +545,6 @@ Qed.
 
 (** ** monty_modpow *)
 Section MontyModpow.
-Variable ap : addsub_params.
-Variable bdivrem : list Z -> list Z -> outcome (list Z * list Z).
-Hypothesis Hap : addsub_ok ap = true.
-Hypothesis Hdivrem : forall a b, canon a -> canon b ->
-  bdivrem a b = if val b =? 0 then Panic DivZero
-                else Ret (enc (val a / val b), enc (val a mod val b)).
-
-Lemma brem_spec a m : canon a -> canon m -> val m <> 0 ->
-  brem bdivrem a m = Ret (enc (val a mod val m)).
-Proof.
-  intros Ha Hm Hz. unfold brem. rewrite Hdivrem by auto.
-  replace (val m =? 0) with false by (symmetry; apply Z.eqb_neq; auto). reflexivity.
-Qed.
-
 Variable p : modpow_params.
 Hypothesis Hp : modpow_ok p = true.
 Variables (m : list Z) (k : Z).
@@ -708,3 +694,152 @@ Proof.
 Qed.
 End Loops.
 End MontyModpow.
+
+(** ** monty_modpow, top level *)
+Section MontyTop.
+Variable ap : addsub_params.
+Variable bdivrem : list Z -> list Z -> outcome (list Z * list Z).
+Hypothesis Hap : addsub_ok ap = true.
+Hypothesis Hdivrem : forall a b, canon a -> canon b ->
+  bdivrem a b = if val b =? 0 then Panic DivZero
+                else Ret (enc (val a / val b), enc (val a mod val b)).
+Lemma brem_spec a m : canon a -> canon m -> val m <> 0 ->
+  brem bdivrem a m = Ret (enc (val a mod val m)).
+Proof.
+  intros Ha Hm Hz. unfold brem. rewrite Hdivrem by auto.
+  replace (val m =? 0) with false by (symmetry; apply Z.eqb_neq; auto). reflexivity.
+Qed.
+Variable p : modpow_params.
+Hypothesis Hp : modpow_ok p = true.
+
+Theorem monty_modpow_spec x y m : canon x -> canon y -> canon m ->
+  Z.odd (val m) = true -> Z.of_nat (length m) < 2 ^ 57 ->
+  monty_modpow ap bdivrem p x y m = Ret (enc (val x ^ val y mod val m)).
+Proof.
+  intros Cx Cy Cm Hodd Hlen. destruct (modpow_ok_inv p Hp) as (Ew & _ & _ & _ & Ef1 & Ef2 & _).
+  pose proof B_pos as HB. pose proof B_gt1 as HB1.
+  destruct Cx as [Wx Sx]. destruct Cy as [Wy Sy]. pose proof Cm as [Wm Sm].
+  assert (HM : 0 < val m).
+  { pose proof (val_nonneg m Wm). destruct (Z.eq_dec (val m) 0) as [E|]; [rewrite E in Hodd; discriminate|lia]. }
+  unfold monty_modpow. destruct m as [|m0 m'] eqn:Em; [cbn in HM; lia|]. rewrite <- Em in *.
+  cbn [bind]. assert (Hm0 : digit m0) by (rewrite Em in Wm; apply wf_cons in Wm; tauto).
+  assert (Hodd0 : Z.odd m0 = true) by (rewrite val_odd, Em in Hodd; exact Hodd).
+  rewrite land_1, Zmod_odd, Hodd0. cbn [Z.eqb Pos.eqb assert_ bind].
+  destruct (inv_mod_alt_spec m0 Hm0 Hodd0) as (k & Ek & Hk & Hkm). rewrite Ek. cbn [bind].
+  assert (Hkm' : (k * hd 0 m) mod B = B - 1) by (rewrite Em; exact Hkm).
+  set (nw := length m) in *. set (M := val m) in *. set (R := B ^ Z.of_nat nw).
+  assert (Hnw : (1 <= nw)%nat) by (unfold nw; rewrite Em; cbn [length]; lia).
+  assert (HMR : M < R) by (apply val_bound; auto).
+  (* x reduced and padded *)
+  assert (Hx1 : exists x1, (if (nw <? length x)%nat then brem bdivrem x m else Ret x) = Ret x1 /\
+                 wf x1 /\ (length x1 <= nw)%nat /\ val x1 mod M = val x mod M).
+  { destruct (Nat.ltb_spec nw (length x)).
+    - rewrite (brem_spec) by (try split; auto; lia). eexists; split; [reflexivity|].
+      split; [apply enc_wf|]. pose proof (Z.mod_pos_bound (val x) M HM).
+      split; [apply length_enc_bound; fold R; lia|]. rewrite enc_val by lia. apply Z.mod_mod; lia.
+    - exists x. repeat split; auto. }
+  destruct Hx1 as (x1 & Ex1 & Wx1 & Lx1 & Vx1). rewrite Ex1. cbn [bind].
+  set (x2 := if (length x1 <? nw)%nat then resize x1 nw else x1).
+  assert (Hx2 : wf x2 /\ length x2 = nw /\ val x2 = val x1).
+  { unfold x2. destruct (Nat.ltb_spec (length x1) nw); [apply resize_spec; auto; lia|].
+    repeat split; auto; lia. }
+  destruct Hx2 as (Wx2 & Lx2 & Vx2).
+  replace (2 * Z.of_nat nw * 64 <? B) with true
+    by (symmetry; apply Z.ltb_lt; rewrite B_val; fold nw in Hlen; lia).
+  cbn [assert_ bind].
+  (* rr *)
+  assert (W1l : wf [1]) by (apply wf_cons; split; [unfold digit; lia|apply wf_nil]).
+  rewrite ushl_spec by (auto; lia).
+  rewrite (brem_spec) by (try apply enc_canon; auto; lia).
+  rewrite val_single, Z.mul_1_l. rewrite enc_val by (apply Z.pow_nonneg; lia).
+  assert (ER2 : 2 ^ (2 * Z.of_nat nw * 64) = R * R).
+  { unfold R. rewrite B_pow_2pow, <- Z.pow_add_r by lia. f_equal; lia. }
+  rewrite ER2. cbn [bind]. fold M.
+  set (rr1 := enc ((R * R) mod M)).
+  set (rr := if (length rr1 <? nw)%nat then resize rr1 nw else rr1).
+  assert (Hrr : wf rr /\ length rr = nw /\ val rr = (R * R) mod M).
+  { pose proof (Z.mod_pos_bound (R * R) M HM) as Hb.
+    assert (Wr : wf rr1) by apply enc_wf.
+    assert (Lr : (length rr1 <= nw)%nat) by (apply length_enc_bound; fold R; lia).
+    assert (Vr : val rr1 = (R * R) mod M) by (apply enc_val; lia).
+    unfold rr. destruct (Nat.ltb_spec (length rr1) nw).
+    - destruct (resize_spec rr1 nw Wr Lr) as (A1 & A2 & A3). repeat split; auto; congruence.
+    - repeat split; auto; lia. }
+  destruct Hrr as (Wrr & Lrr & Vrr).
+  assert (Hone : wf (resize [1] nw) /\ length (resize [1] nw) = nw /\ val (resize [1] nw) = 1).
+  { destruct (resize_spec [1] nw) as (A1 & A2 & A3); [exact W1l|cbn [length]; lia|].
+    rewrite val_single in A3. auto. }
+  destruct Hone as (Wone & Lone & Vone). set (one := resize [1] nw) in *.
+  rewrite Ew. change ((0 <=? 4) && (4 <? 64)) with true. cbn [assert_ bind].
+  change (Z.to_nat (2 ^ 4 - 2)) with 14%nat.
+  (* instantiate the representation lemmas *)
+  pose proof (mont_cong p Hp m k Wm HM Hk Hkm') as Hcong. fold nw M R in Hcong.
+  pose proof (mont_mrep p Hp m k Wm HM Hodd Hk Hkm') as Hmul. fold nw M R in Hmul.
+  pose proof (gcd_M_R m k Hodd Hkm') as Hgcd. fold nw M R in Hgcd.
+  set (X := val x) in *. assert (HX : 0 <= X) by (apply val_nonneg; auto).
+  (* powers[0], powers[1] *)
+  destruct (Hcong one rr Wone Wrr Lone Lrr) as (p0 & E0 & W0 & L0 & V0). rewrite E0. cbn [bind].
+  assert (H0 : mrep m p0 (X ^ 0)).
+  { split; [auto|]. split; [auto|]. fold M nw R. apply mod_cancel with R; auto.
+    rewrite V0, Vone, Vrr, Z.mul_1_l, Z.mod_mod by lia. f_equal. rewrite Z.pow_0_r. ring. }
+  destruct (Hcong x2 rr Wx2 Wrr Lx2 Lrr) as (p1 & E1 & W1 & L1 & V1). rewrite E1. cbn [bind].
+  assert (H1 : mrep m p1 X).
+  { split; [auto|]. split; [auto|]. fold M nw R. apply mod_cancel with R; auto.
+    rewrite V1, Vx2, Vrr. rewrite Z.mul_mod_idemp_r by lia.
+    rewrite Z.mul_mod, Vx1, <- Z.mul_mod by lia. f_equal. ring. }
+  destruct (pow_table_spec p Hp m k Wm HM Hodd Hk Hkm' X p1 HX H1 14 p1 1 ltac:(lia))
+    as (rest & Er & Lr & Nr).
+  { rewrite Z.pow_1_r. exact H1. }
+  fold nw in Er. rewrite Er. cbn [bind].
+  assert (Hpowers : forall i, 0 <= i < 16 ->
+            exists q, nth_error (p0 :: p1 :: rest) (Z.to_nat i) = Some q /\ mrep m q (X ^ i)).
+  { intros i Hi. destruct (Z.eq_dec i 0) as [->|N0]; [exists p0; split; [reflexivity|exact H0]|].
+    destruct (Z.eq_dec i 1) as [->|N1]; [exists p1; split; [reflexivity|rewrite Z.pow_1_r; exact H1]|].
+    replace (Z.to_nat i) with (S (S (Z.to_nat (i - 2)))) by lia. cbn [nth_error].
+    exists (nth (Z.to_nat (i - 2)) rest []). split.
+    - apply nth_error_nth'. lia.
+    - replace i with (1 + 1 + Z.of_nat (Z.to_nat (i - 2))) at 2 by lia. apply Nr. lia. }
+  (* z = powers[0] resized *)
+  assert (Ez : resize p0 nw = p0).
+  { unfold resize. rewrite firstn_all2 by lia. rewrite L0, Nat.sub_diag. apply app_nil_r. }
+  rewrite Ez.
+  destruct (exp_loop_spec p Hp m k Wm HM Hodd Hk Hkm' X HX (p0 :: p1 :: rest) Hpowers (rev y) true p0 0)
+    as (z' & Ez' & Hz'); auto; try lia.
+  { apply wf_rev; auto. }
+  fold nw in Ez'. rewrite Ez'. cbn [bind]. rewrite fold_rev_val in Hz'.
+  destruct Hz' as (Wz' & Lz' & Vz'). fold nw M R in Lz', Vz'.
+  destruct (Hcong z' one Wz' Wone Lz' Lone) as (zz & Ezz & Wzz & Lzz & Vzz). rewrite Ezz. cbn [bind].
+  assert (Vzz' : val zz mod M = (X ^ val y) mod M).
+  { apply mod_cancel with R; auto. rewrite Vzz, Vone, Z.mul_1_r. exact Vz'. }
+  (* final reduction *)
+  set (zs := strip zz). assert (Czs : canon zs) by (apply canon_strip; auto).
+  assert (Vzs : val zs = val zz) by apply val_strip.
+  assert (Hzs : 0 <= val zs) by (apply val_nonneg, Czs).
+  rewrite cmp_slice_spec by auto. cbn [bind]. rewrite Ef1, Ef2. fold M.
+  set (res := X ^ val y mod M). assert (Hres : 0 <= res < M) by (apply Z.mod_pos_bound; lia).
+  assert (Sid : forall l, canon l -> strip l = l) by (intros l [_ E]; exact E).
+  destruct (Z.compare_spec (val zs) M) as [Hc|Hc|Hc]; cbn [ordz cmp_eval Z.geb Z.compare].
+  - (* zs = m *)
+    rewrite usub_spec by (auto; apply Czs). replace (val zs <? val m) with false by (symmetry; apply Z.ltb_ge; fold M; lia).
+    cbn [bind]. rewrite cmp_slice_spec by (auto using enc_canon).
+    rewrite enc_val by (fold M; lia). fold M. rewrite Hc, Z.sub_diag.
+    replace (0 ?= M) with Lt by (symmetry; apply Z.compare_lt_iff; lia). cbn [bind ordz cmp_eval Z.geb Z.compare].
+    unfold res. rewrite <- Vzz', <- Vzs, Hc, Z.mod_same by lia. reflexivity.
+  - (* zs < m *)
+    rewrite Sid by auto. f_equal. rewrite <- (enc_of_canon zs Czs). f_equal.
+    unfold res. rewrite <- Vzz', <- Vzs. symmetry. apply Z.mod_small. lia.
+  - (* zs > m *)
+    rewrite usub_spec by (auto; apply Czs). replace (val zs <? val m) with false by (symmetry; apply Z.ltb_ge; fold M; lia).
+    cbn [bind]. rewrite cmp_slice_spec by (auto using enc_canon).
+    rewrite enc_val by (fold M; lia). fold M.
+    assert (Er' : (val zs - M) mod M = res).
+    { unfold res. rewrite <- Vzz', <- Vzs. replace (val zs - M) with (val zs + (-1) * M) by ring.
+      apply Z.mod_add. lia. }
+    destruct (Z.compare_spec (val zs - M) M) as [Hd|Hd|Hd]; cbn [bind ordz cmp_eval Z.geb Z.compare].
+    + rewrite (brem_spec) by (auto using enc_canon; fold M; lia). cbn [bind].
+      rewrite Sid by apply enc_canon. rewrite enc_val by lia. fold M. rewrite Er'. reflexivity.
+    + rewrite Sid by apply enc_canon. f_equal. f_equal. rewrite <- Er'. symmetry. apply Z.mod_small. lia.
+    + rewrite (brem_spec) by (auto using enc_canon; fold M; lia). cbn [bind].
+      rewrite Sid by apply enc_canon. rewrite enc_val by lia. fold M. rewrite Er'. reflexivity.
+Qed.
+End MontyTop.
